@@ -47,6 +47,22 @@ def main():
     rep.add_mc("textually duplicated stateful sub-formulas", r)
     if r["violated"]:
         rep.mc_violation("C02_dup", r)
+    if not quick:
+        # depth-2 universe: every past operator applied to every depth-1 formula (nested operator memories)
+        F2 = []
+        base = F[::2]
+        for q in base:
+            for op in PAST_UN:
+                F2.append(un(op, q))
+            for op in ("onceT", "histT"):
+                F2.append(un(op, q, 0, 1)); F2.append(un(op, q, 1, 2))
+        for q1 in base[:12]:
+            for q2 in base[5:17]:
+                F2.append(bi("since", q1, q2)); F2.append(bi("sinceT", q1, q2, 1, 2)); F2.append(bi("and", q1, un("prev", q2)))
+        r = mc.rtamt_mc("C02_depth2", F2, cfgs, maxlen=3, invariants=invs, timeout=7200)
+        rep.add_mc("depth-2 past universe (%d formulas), all traces up to length 3" % len(F2), r)
+        if r["violated"]:
+            rep.mc_violation("C02_depth2", r)
     # deviation on: operator memory advanced once per visit must break the invariant (non-vacuity)
     r = mc.rtamt_mc("C02_devon", dup, cfgs, maxlen=3, dev=["stepPerVisit"], invariants=["InvC02"], expect_violation=True)
     rep.extra["deviation_on_counterexample"] = "stepPerVisit: " + ",".join(r["violated"])
